@@ -186,7 +186,7 @@ ms = None
 if b:
     ms = []
     default_status = "BAD_REQUEST"
-    for m in re.finditer(r"tonic::Code::(\w+)\s*=>\s*(\{.*?\}|errors::\w+),", b, flags=re.S):
+    for m in re.finditer(r"tonic::Code::(\w+)\s*=>\s*(\{.*?\}|errors::\w+\s*,)", b, flags=re.S):
         code, body = m.group(1), m.group(2)
         st = re.search(r"status_code\s*=\s*StatusCode::(\w+)", body)
         er = re.search(r"errors::(\w+)", body)
